@@ -1,6 +1,6 @@
 (* C01 property theorems (theorems only; proofs in the other C01 files). *)
 From Coq Require Import Lia.
-From Wz Require Import lib.Bytes C01.Gen C01.Model C01.Pins C01.Proofs C01.Strings C01.Hold C01.Search C01.Inv C01.Chunks C01.Render C01.HeaderBlock C01.Identity.
+From Wz Require Import lib.Bytes C01.Gen C01.Model C01.Pins C01.Proofs C01.Strings C01.Hold C01.Search C01.Inv C01.Chunks C01.Render C01.HeaderBlock C01.Identity C01.Tie.
 Open Scope N_scope.
 
 (* the pattern texts, templates, state names and SEARCH_EXTRA_LENGTH the hand-written matchers
@@ -292,3 +292,31 @@ Theorem C01_read_schedule_is_chunking : forall fuel bs sched data,
    forall c, In c (reads_of fuel bs sched data) -> (1 <= length c <= bs)%nat).
 Proof. exact (fun fuel bs sched data => conj (reads_concat fuel bs sched data) (fun Hb Hl c => reads_sizes fuel bs sched data c Hb Hl)). Qed.
 Print Assumptions C01_read_schedule_is_chunking.
+
+(* ---- tie (a): the arithmetic of the incremental search and of the hold-back used by the hand-written model
+   is the arithmetic translated from the current source (gen_* in C01/Gen.v) *)
+Theorem C01_tie_search_positions : forall lim B c,
+  complete c = false ->
+  (st c = PREAMBLE -> search_delim true B (buf c) (spos c) = None ->
+   exists c', next_event lim B c = Ok (ENeed, c') /\
+              spos c' = gen_preamble_spos (length (buf c)) (length B) /\ buf c' = buf c /\ st c' = PREAMBLE) /\
+  (st c = PART -> search_blank (buf c) (spos c) = None ->
+   exists c', next_event lim B c = Ok (ENeed, c') /\
+              spos c' = gen_part_spos (length (buf c)) /\ buf c' = buf c /\ st c' = PART).
+Proof.
+  exact (fun lim B c Hc => conj (fun H1 H2 => tie_preamble_spos lim B c H1 H2 Hc)
+                                (fun H1 H2 => tie_part_spos lim B c H1 H2 Hc)).
+Qed.
+Print Assumptions C01_tie_search_positions.
+
+Theorem C01_tie_headers_end : forall B c ms me,
+  st c = PART -> search_blank (buf c) (spos c) = Some (ms, me) ->
+  exists c', next_event no_limits B c = Ok (EPart (firstn ms (buf c)), c') /\
+             buf c' = skipn (gen_headers_end ms me) (buf c) /\ st c' = DATA_START.
+Proof. exact tie_headers_end. Qed.
+Print Assumptions C01_tie_headers_end.
+
+Theorem C01_tie_parse_data : forall B data start s0,
+  parse_data B data start s0 = parse_data_gen B data start s0.
+Proof. exact tie_parse_data. Qed.
+Print Assumptions C01_tie_parse_data.
